@@ -48,6 +48,15 @@ WATCHES = ['locals()', 'globals()', 'a', 'd', 'd[0]', '[a]', 'g', 'e["d"]', 'G2'
 _code = compile(SRC, PATH, 'exec')
 
 
+OUTER_SRC = '''def target(a, b):
+    d = [a, b, a]
+    e = {'a': a, 'd': d}
+    me = locals()
+    yield
+'''
+_outer_code = compile(OUTER_SRC, PATH, 'exec')
+
+
 def joint_walk(snap, roots):
     """roots: list of (VariableId, live object). -> list of (vid, obj) pairs over every path followed by name."""
     pairs = []
@@ -158,7 +167,35 @@ class C07(Prop):
             'max_variables': st.one_of(st.just(1000), st.integers(1, 14)),
             'me': st.booleans(),
             'capture': st.booleans(),
+            # the paused frame is the outermost one (nothing below it) and holds its own locals() in a local
+            'outermost': st.sampled_from([False, False, False, True]),
         })
+
+    def case_outermost(self, recipe, out, vals, i0, i1, actions, n_snap):
+        out.cls('outermost_frame_holds_its_locals')
+        out.nontrivial = n_snap >= 1
+        trig = Trigger(LineLocation('c07_mod.py', 5, Location.Position.START), actions)
+        handler, _, push = lab.make_handler([trig], plugins=[lab.RecLogger()])
+        ns = {'__name__': 'c07_mod'}
+        exec(_outer_code, ns)
+        gen = ns['target'](vals[i0], vals[i1])
+        next(gen)
+        try:
+            handler.trace_call(gen.gi_frame, 'line', None)
+        except BaseException as e:      # noqa
+            out.violate('trace_call raised %s' % lab.exc_bucket(e))
+        finally:
+            gen.close()
+        if len(push.snapshots) != n_snap:
+            out.violate('snapshot count wrong [%s]' % ','.join(sorted(set(lab.LOGS.errors())))[:120])
+        for snap in push.snapshots:
+            c = closure(snap)
+            if c and not ('WATCH source, expression locals()' in c):
+                out.violate('dangling reference: %s' % c, DETAIL.get('last'))
+            elif c:
+                out.violate('dangling reference: %s' % c)
+        lab.reset_world()
+        return out
 
     def run_case(self, recipe):
         out = Outcome()
@@ -191,6 +228,8 @@ class C07(Prop):
                 n_snap += 1
         trig = Trigger(LineLocation('c07_mod.py', HIT_LINE_ME if me else HIT_LINE, Location.Position.START), actions)
         handler, _, push = lab.make_handler([trig], plugins=[lab.RecLogger()])
+        if recipe.get('outermost') and not capture:
+            return self.case_outermost(recipe, out, vals, i0, i1, actions, n_snap)
         readings = []
 
         def HIT():
